@@ -357,6 +357,133 @@ func c12(r *core.Report) {
 		}
 	}
 
+	// ---- C12-BUFFERED-DRAINED
+	// A select that offers both the closed signal and a receive on a BUFFERED channel is
+	// nondeterministic after Close while that channel still holds elements (Go picks a ready
+	// case at random): Deliver would accept messages on a closed queue and Receive would hand
+	// them to a callback. The design's answer is that Close empties the buffered channels.
+	r.Rule("C12-BUFFERED-DRAINED", "buffered channels selected on together with the closed signal are emptied by Close, after the signal is raised", 3)
+	{
+		buffered := map[*types.Var]bool{}
+		for _, fn := range p.ModFuncs {
+			if fn.Pkg == nil || fn.Pkg.Pkg.Path() != core.ModPath+"/s/swarmutil" {
+				continue
+			}
+			for _, in := range core.AllInstrs(fn) {
+				st, ok := in.(*ssa.Store)
+				if !ok {
+					continue
+				}
+				f, _ := core.FieldOfAddr(st.Addr)
+				if f == nil {
+					continue
+				}
+				mc, ok := core.Through(core.Peel(st.Val)).(*ssa.MakeChan)
+				if !ok {
+					continue
+				}
+				if k, isK := core.ConstInt(mc.Size); !isK || k != 0 {
+					buffered[f.Origin()] = true
+				}
+			}
+		}
+		closeLit := (*ssa.Function)(nil)
+		if qc := h.fns["Queue.Close"]; qc != nil && len(qc.AnonFuncs) == 1 {
+			closeLit = qc.AnonFuncs[0]
+		}
+		drained := func(f *types.Var) (bool, string) {
+			if closeLit == nil {
+				return false, "Queue.Close has no once-literal"
+			}
+			var closeSig ssa.Instruction
+			for _, ci := range core.Calls(closeLit, func(ci ssa.CallInstruction) bool { return core.IsBuiltin(ci.Common(), "close") }) {
+				cr := core.ClassifyChan(ci.Common().Args[0])
+				if cr.Kind == "field" && core.SameField(cr.Field, h.queueClosed) {
+					closeSig = ci.(ssa.Instruction)
+				}
+			}
+			if closeSig == nil {
+				return false, "Close does not raise the closed signal"
+			}
+			for _, sel := range core.AllSelects(closeLit) {
+				has := map[*types.Var]bool{}
+				for _, st := range sel.States {
+					cr := core.ClassifyChan(st.Chan)
+					if st.Dir == types.RecvOnly && cr.Kind == "field" {
+						has[cr.Field.Origin()] = true
+					}
+				}
+				all := true
+				for b := range buffered {
+					if !has[b] {
+						all = false
+					}
+				}
+				if !all || !sel.Blocking {
+					continue
+				}
+				// inside a loop
+				if !core.Reach(closeLit, sel, nil, nil)[sel] {
+					continue
+				}
+				// bounded by cap(freelist): some If in the literal compares with cap(<freelist>)
+				capBound := false
+				for _, in := range core.AllInstrs(closeLit) {
+					b, ok := in.(*ssa.BinOp)
+					if !ok {
+						continue
+					}
+					cc, ok := core.Peel(b.Y).(*ssa.Call)
+					if ok && core.IsBuiltin(cc.Common(), "cap") {
+						cr := core.ClassifyChan(cc.Call.Args[0])
+						if cr.Kind == "field" && core.SameField(cr.Field, h.freelist) {
+							capBound = true
+						}
+					}
+				}
+				if !capBound {
+					return false, "the draining loop is not bounded by cap(freelist)"
+				}
+				if !core.InstrDominates(closeSig, sel) {
+					return false, "the channels are drained before the closed signal is raised (a concurrent Deliver can refill them)"
+				}
+				return true, "Close raises the signal and then receives cap(freelist) messages from freelist/queue"
+			}
+			return false, "Close does not empty " + f.Name() + ": after Close a select offering both the closed signal and " + f.Name() + " picks at random, so a closed queue still accepts messages / hands them to callbacks"
+		}
+		n := 0
+		for _, name := range []string{"Queue.Deliver", "Queue.DeliverVec", "Queue.Receive"} {
+			fn := h.fns[name]
+			for _, sel := range core.AllSelects(fn) {
+				hasClosed := false
+				var bufs []*types.Var
+				for _, st := range sel.States {
+					cr := core.ClassifyChan(st.Chan)
+					if st.Dir != types.RecvOnly || cr.Kind != "field" {
+						continue
+					}
+					if core.SameField(cr.Field, h.queueClosed) {
+						hasClosed = true
+					}
+					if buffered[cr.Field.Origin()] {
+						bufs = append(bufs, cr.Field)
+					}
+				}
+				if !hasClosed {
+					continue
+				}
+				for _, b := range bufs {
+					n++
+					ok, why := drained(b)
+					r.Check(ok, "C12-BUFFERED-DRAINED", core.FnName(fn)+" select{closed,"+b.Name()+"}", p.Pos(sel.Pos()), why, why)
+				}
+			}
+		}
+		if n == 0 {
+			r.Fail("C12-BUFFERED-DRAINED: no select mixing the closed signal with a buffered channel found")
+		}
+	}
+
 	// ---- C12-IDEMPOTENT
 	r.Rule("C12-IDEMPOTENT", "close() of a hub/queue closed-signal runs inside sync.Once.Do (closing twice cannot panic)", 3)
 	for _, fn := range p.ModFuncs {
